@@ -61,6 +61,7 @@ def shards(tier, seed):
     out.append(("threads",))
     out.append(("biglimit",))
     out.append(("rawbytes",))
+    out.append(("nested",))
     out += [("python-O", ("tables", 5, b["k"], b["d"])), ("python-O", ("tables", 8, b["k"], b["d"])), ("python-O", ("roundtrip",))]
     return out
 
@@ -278,6 +279,44 @@ def rawbytes_family(r):
     r.sample({"rawbytes": [repr(x) for x in RAW_JUNK], "bases": [repr(x) for x in RAW_BASES], "tables": len(RAW_TABLES)})
 
 
+def nested_family(r):
+    """Routers below routers, and a prefix mount between two routers: each router matches the path it is handed, and the endpoint
+    gets the parameters of the route that called it (converted), whatever the routers above have matched."""
+    for iface in ("wsgi", "asgi"):
+        m = __import__("baize.wsgi" if iface == "wsgi" else "baize.asgi", fromlist=["x"])
+        log = []
+        if iface == "wsgi":
+            def ep(tag):
+                def app(environ, start_response):
+                    log.append((tag, dict(m.Request(environ).path_params)))
+                    return m.PlainTextResponse(tag)(environ, start_response)
+                return app
+        else:
+            def ep(tag):
+                async def app(scope, receive, send):
+                    log.append((tag, dict(m.Request(scope, receive, send).path_params)))
+                    return await m.PlainTextResponse(tag)(scope, receive, send)
+                return app
+        inner = m.Router(("/{tenant:int}/items/{item:int}", ep("item")), ("/{tenant}/about", ep("about")), ("/{rest:any}", ep("inner-any")))
+        outer = m.Router(("/static/{p:any}", ep("static")), ("/{tenant}/{rest:any}", inner))
+        mounted = m.Router(("/v1/{_:any}", m.Subpaths(("/v1", m.Router(("/users/{id:int}", ep("user")), ("/{rest:any}", ep("v1-any")))))), ("/{x}", ep("top")))
+        cases = [
+            (outer, "/12/items/7", ("item", {"tenant": 12, "item": 7})), (outer, "/acme/about", ("about", {"tenant": "acme"})), (outer, "/acme/items/x", ("inner-any", {"rest": "acme/items/x"})),
+            (outer, "/static/a/b", ("static", {"p": "a/b"})), (outer, "/007/items/010", ("item", {"tenant": 7, "item": 10})),
+            (mounted, "/v1/users/7", ("user", {"id": 7})), (mounted, "/v1/other/x", ("v1-any", {"rest": "other/x"})), (mounted, "/v1/users/x7", ("v1-any", {"rest": "users/x7"})), (mounted, "/home", ("top", {"x": "home"})),
+        ]
+        for app, path, want in cases * 2:  # (twice: what one request leaves in a router must not show in the next)
+            del log[:]
+            res = call(iface, app, path)
+            r.count("evaluations")
+            r.count("distinct_nontrivial")
+            got = log[-1] if log else None
+            if res.exc is not None or res.status != 200 or len(log) != 1 or got != want or any(type(got[1][k]) is not type(want[1][k]) for k in want[1]):
+                r.violation("nested:wrong-endpoint-or-params", {"nested": True, "iface": iface, "path": path, "table": [], "root": "", "full_path_len": len(path)},
+                            f"{iface} routers below routers (and a prefix mount between two routers) on {path!r}: status {res.status}, exception {res.exc!r:.60}, endpoint calls {log!r:.160}; expected {want!r}")
+    r.sample({"nested": ["Router > Router", "Router > Subpaths > Router"], "paths": ["/12/items/7", "/v1/users/7"]})
+
+
 def thread_family(r, tier):
     import os
     from ..core.runner import REPO
@@ -323,6 +362,9 @@ def run_shard(desc, tier):
         return r
     if desc[0] == "rawbytes":
         rawbytes_family(r)
+        return r
+    if desc[0] == "nested":
+        nested_family(r)
         return r
     if desc[0] == "tables":
         _, first, k, d = desc
@@ -437,6 +479,9 @@ def replay(w):
     r = R()
     if "threads" in w:
         thread_family(r, "quick")
+        return bool(r.viol), {"violations": sorted(r.viol), "texts": [v[2][:300] for v in r.viol.values()]}
+    if w.get("nested"):
+        nested_family(r)
         return bool(r.viol), {"violations": sorted(r.viol), "texts": [v[2][:300] for v in r.viol.values()]}
     if w.get("rawbytes"):
         rawbytes_family(r)
